@@ -12,6 +12,8 @@ package main
 // and cell contents equal the spliced row - checked after parsing has finished.
 
 import (
+	"bytes"
+	"encoding/csv"
 	"fmt"
 	"strings"
 
@@ -97,6 +99,12 @@ var rejections = []rejection{
 	{"stop_times.txt", "unknown-trip_id", map[string]string{"trip_id": "NOSUCH"}, 1},
 	{"stop_times.txt", "blank-stop_id", map[string]string{"stop_id": ""}, 1},
 	{"stop_times.txt", "unknown-stop_id", map[string]string{"stop_id": "NOSUCH"}, 1},
+	// rows that are invalid twice over
+	{"stop_times.txt", "unknown-stop_id-and-unknown-trip_id", map[string]string{"stop_id": "NOSUCH", "trip_id": "NOSUCH"}, 1},
+	{"stop_times.txt", "blank-stop_id-and-unknown-trip_id", map[string]string{"stop_id": "", "trip_id": "NOSUCH"}, 1},
+	{"stop_times.txt", "unknown-stop_id-and-bad-stop_sequence", map[string]string{"stop_id": "NOSUCH", "stop_sequence": "x"}, 1},
+	{"trips.txt", "unknown-route_id-and-unknown-service_id", map[string]string{"route_id": "NOSUCH", "service_id": "NOSUCH"}, 1},
+	{"transfers.txt", "unknown-from_stop_id-and-unknown-to_stop_id", map[string]string{"from_stop_id": "NOSUCH", "to_stop_id": "NOSUCH2"}, 1},
 	// a rejected row of a known trip whose valid rows come elsewhere in the file
 	{"stop_times.txt", "unknown-stop_id-in-a-row-of-trip-T3", map[string]string{"stop_id": "NOSUCH", "trip_id": "=T3"}, 1},
 	{"stop_times.txt", "unknown-stop_id-in-a-row-of-trip-T1", map[string]string{"stop_id": "NOSUCH", "trip_id": "=T1"}, 1},
@@ -182,6 +190,9 @@ func c09Harness(nInsert int) Harness {
 		// physical lines and data rows need not coincide: blank lines between rows, and a
 		// quoted cell spanning two lines in the first valid agency row
 		pres := presentation{BlankLines: c.Free("blank_lines_between_rows", 2) == 1}
+		if c.Free("seventy_unknown_columns_first", 2) == 1 {
+			pres.ExtraCol = 4 // every column the parser knows then sits beyond index 64
+		}
 		if c.Free("multi_line_cell_in_first_agency_row", 2) == 1 {
 			base.t("agency.txt").set(0, "agency_phone", "line one\nline two")
 		}
@@ -246,17 +257,23 @@ func c09Harness(nInsert int) Harness {
 					rowNo = i + 1
 				}
 			}
+			// the row and the header as they stand in the file (unknown columns included): read back with encoding/csv
+			recs, rerr := csv.NewReader(bytes.NewReader(renderCSV(t, pres))).ReadAll()
+			if rerr != nil || rowNo < 1 || rowNo >= len(recs) {
+				harnessBug("agency.txt does not read back: %v", rerr)
+			}
+			fileHeader, fileRow := recs[0], recs[rowNo]
 			found := false
 			for _, w := range r.Warnings {
 				if _, isRow := w.Kind.(warnings.AgencyMissingValues); !isRow || string(w.File) != "agency.txt" || w.RowNumber != rowNo {
 					continue
 				}
 				found = true
-				if strings.Join(w.RowContent, "\x1f") != strings.Join(in.row, "\x1f") {
-					c.Fail("warning-row-content", "warning for agency.txt row %d carries %q, the row is %q", rowNo, w.RowContent, in.row)
+				if strings.Join(w.RowContent, "\x1f") != strings.Join(fileRow, "\x1f") {
+					c.Fail("warning-row-content", "warning for agency.txt row %d carries %q, the row is %q", rowNo, w.RowContent, fileRow)
 				}
-				if strings.Join(w.HeaderContent, "\x1f") != strings.Join(t.Cols, "\x1f") {
-					c.Fail("warning-header-content", "warning header %q, file header %q", w.HeaderContent, t.Cols)
+				if strings.Join(w.HeaderContent, "\x1f") != strings.Join(fileHeader, "\x1f") {
+					c.Fail("warning-header-content", "warning header %q, file header %q", w.HeaderContent, fileHeader)
 				}
 			}
 			if !found {
